@@ -138,6 +138,47 @@ def run_sequence(beh, style="constructor"):
             if d:
                 out.append(("ops/%s/by=%s/origin=%s/%s" % ("result-differs" if role == "result" else "source-modified", by, origin[j], opsreplay.generalize(d)),
                             {"schema": j, "difference": d}))
+    ALL_FILTER_FIELDS = (["min", "size"], ["tags"], ["min", "level"], ["only", "tag"], ["max", "size"])
+    FILTER_VALUES = {"min_size": 1, "tags": ["x"], "min_level": "LOW", "only_tag": None, "max_size": 2}
+
+    def coercion_probe(j, sch, by):
+        """A variable of type Filter supplying every input field the BASE (or an extension) ever declared: accepted exactly when all
+        of them are fields of Filter in THIS schema value (hidden fields are unknown fields).  It also warms whatever the library
+        memoises per type before the next operation derives a schema from this one."""
+        from py_gql import graphql_blocking
+        val = vals[j - 1]
+        camel = val["camel"]
+        ts = {t["name"]: t for t in val["types"]}
+        q = ts.get("Query")
+        if "Filter" not in ts or q is None:
+            return
+        fi = next((f for f in q["fields"] if list(f["w"]) == ["find", "items"]), None)
+        if fi is None or not any(list(a["w"]) == ["filter", "by"] for a in fi["args"]):
+            return
+        declared = {tuple(a["w"]) for a in ts["Filter"]["fields"]}
+        supplied = list(ALL_FILTER_FIELDS)
+        variables = {"f": {opsreplay.spell(w, camel): FILTER_VALUES["_".join(w)] for w in supplied}}
+        ok_expected = all(tuple(w) in declared for w in supplied)
+        text = "query ($f: Filter) { %s(%s: $f) { __typename } }" % (opsreplay.spell(["find", "items"], camel), opsreplay.spell(["filter", "by"], camel))
+        try:
+            res = graphql_blocking(sch, text, variables=variables)
+        except Exception as e:
+            out.append(("ops/variable-coercion/raises/%s/by=%s" % (type(e).__name__, by), {"schema": j, "error": repr(e)[:300]}))
+            return
+        rejected = bool(res.errors) and res.data is None
+        if rejected and ok_expected:
+            out.append(("ops/variable-coercion/declared-input-fields-rejected/by=%s/origin=%s" % (by, origin[j]), {"schema": j, "errors": [str(e) for e in res.errors][:2], "variables": variables}))
+        if not rejected and not ok_expected:
+            out.append(("ops/variable-coercion/hidden-input-field-accepted/by=%s/origin=%s" % (by, origin[j]),
+                        {"schema": j, "variables": variables, "declared": sorted("_".join(w) for w in declared)}))
+
+    _check_all = check_all
+
+    def check_all(by, newidx):          # noqa: F811  (projection of every live schema, then the probes)
+        _check_all(by, newidx)
+        for j, sch in sorted(live.items()):
+            coercion_probe(j, sch, by)
+
     check_all("init", 1)
     if out:
         return out, seqdesc
@@ -195,6 +236,18 @@ def run_sequence(beh, style="constructor"):
                 out.append(("ops/returns-source-object/%s" % by, {}))
             live[new] = r
             origin[new] = by.split(":")[0]
+            # what the operation removed / added must be visible to diff_schema(source, result) (it reads the per-type indexes)
+            try:
+                from py_gql.schema.differ import diff_schema
+                before = visible_names(opsreplay.normalize(vals[src - 1]), False)
+                after = visible_names(opsreplay.normalize(vals[new - 1]), False)
+                if op != "camel":
+                    changes = [str(c) for c in diff_schema(s, r)]
+                    if (before != after) != bool(changes):
+                        out.append(("ops/diff-of-source-and-result/%s/by=%s" % ("nothing-reported" if before != after else "changes-for-equal-schemas", by),
+                                    {"removed": sorted(before - after)[:4], "added": sorted(after - before)[:4], "changes": changes[:4]}))
+            except Exception as e:
+                out.append(("ops/diff-of-source-and-result/raises/%s/by=%s" % (type(e).__name__, by), {"error": repr(e)[:300]}))
         before = len(out)
         check_all(by, new if r is not None else 0)
         if len(out) > before:
@@ -276,7 +329,23 @@ def run_plan(base, item, seed):
             else:
                 schema = build_schema(text)
                 dirreplay.attach(schema, base, opsreplay.Ids())
+                # a document parsed ONCE and served before and after the in-place transform (servers cache parsed documents)
+                probe = None
+                gone = {(an["site"]["s"], an["site"]["t"], an["site"]["f"], an["site"]["a"]) for an in plan if an["e"]["d"] == "drop"}
+                if not gone & {("type", "U", "", ""), ("type", "Person", "", ""), ("type", "Item", "", ""), ("type", "Filter", "", ""),
+                               ("field", "Query", "items", ""), ("arg", "Query", "items", "filter")}:
+                    from py_gql import graphql_blocking
+                    from py_gql.lang import parse
+                    probe = parse("query ($f: Filter) { items(filter: $f) { id } any { ... on Person { id } ... on Item { id } } }")
+                    r0 = graphql_blocking(schema, probe)
+                    if r0.errors:
+                        raise RuntimeError("probe document fails before the transform: %s" % r0.errors[0])
                 schema = apply_schema_directives(schema, classes)
+                if probe is not None and not misuse:
+                    r1 = graphql_blocking(schema, probe)
+                    if r1.errors:
+                        out.append(("dir/apply/cached-document-fails-after-transform/%s" % pk,
+                                    {"error": str(r1.errors[0])[:300], "document": "query ($f: Filter) { items(filter: $f) { id } any { ... on Person { id } ... on Item { id } } }"}))
         except GraphQLError as e:
             if not misuse:
                 out.append(("dir/%s/rejected/%s/%s" % (binding, type(e).__name__, pk), {"error": repr(e)[:300]}))
